@@ -1485,15 +1485,48 @@ def oracle_point(spec, d, p, sweep=200, seed=0, notes=None):
     return bad
 
 
-def oracle_job(spec, dirs, sweep=200, seed=0, notes=None):
+_WARM = np.array([[0.36, 0.48, -0.8, 0.5], [-0.8, 0.6, 0.0, -1.0], [0.48, 0.64, 0.6, 2.0], [0.0, 0.0, 0.0, 1.0]])
+POSE_KINDS = ("capsule", "ellipsoid", "cylinder", "cone", "box", "mesh")
+
+
+def build_moved(spec, dirs, alias):
+    """The object of `spec` obtained the other way the library offers: constructed at ANOTHER pose, asked the same
+    directions there (so that anything a support function remembers is filled), then brought to the pose of `spec`
+    with update_pose — with a fresh pose array, or (alias) by overwriting the pose array the collider was built from
+    and handing it in again, as a caller that keeps one pose buffer does. Kinds without a pose matrix: build(spec)."""
+    import copy
+    base, _ms = base_of(spec)
+    if base["kind"] not in POSE_KINDS:
+        return build(spec)
+    wspec = copy.deepcopy(spec)
+    wb, _ = base_of(wspec)
+    T = pose_of(base)
+    wb["pose"] = _WARM.dot(T).ravel().tolist()
+    obj = build(wspec)
+    for d in dirs:
+        if any(d):
+            impl_support(obj, d)
+    held = inner_obj(obj).collider2origin()
+    if alias and isinstance(held, np.ndarray) and held.shape == (4, 4):
+        held[...] = T
+        obj.update_pose(held)
+    else:
+        obj.update_pose(T.copy())
+    return obj
+
+
+def oracle_job(spec, dirs, sweep=200, seed=0, notes=None, moved=None):
     """Oracle on a whole job: history of queries on ONE object, fresh-object queries, first_vertex, center.
-    Returns a list of violations (dicts with function/args-extra/observed/expected/oracle)."""
+    Returns a list of violations (dicts with function/args-extra/observed/expected/oracle).
+    moved: None | "fresh" | "alias" — the object is brought to its pose by update_pose (build_moved)."""
     out = []
     base, ms = base_of(spec)
     kind = base["kind"]
     label = "Margin(%s)" % kind if ms else kind
+    if moved:
+        label += " after update_pose"
     L = feature_L(spec)
-    obj = build(spec)
+    obj = build_moved(spec, dirs, moved == "alias") if moved else build(spec)
     vals = []
     for i, d in enumerate(dirs):
         if not any(d):
@@ -1848,7 +1881,9 @@ def search(ctx):
                 dirs.insert(rng.randrange(len(dirs) + 1), target)
             dirs = dirs[:12]
         seed = rng.randrange(2 ** 31)
-        viol = oracle_job(spec, dirs, sweep, seed, notes)
+        moved = (None, None, "fresh", "alias")[i % 4] if base_of(spec)[0]["kind"] in POSE_KINDS else None
+        ctx.branch("collider-history", moved or "constructed-at-pose")
+        viol = oracle_job(spec, dirs, sweep, seed, notes, moved=moved)
         ident = is_identity_pose(spec)
         ckey = " ".join(enc_collider(spec, "F"))
         for j, d in enumerate(dirs):
@@ -1857,7 +1892,7 @@ def search(ctx):
         for v in viol:
             nfail += 1
             if nfail <= 40:
-                ctx.fail(v["function"], {"spec": spec, "dirs": dirs, "sweep_seed": seed, "at": v.get("at")},
+                ctx.fail(v["function"], {"spec": spec, "dirs": dirs, "sweep_seed": seed, "at": v.get("at"), "moved": moved},
                          v["observed"], v["expected"], v["oracle"])
     chk = notes.pop("checked", 0)
     ctx.extra["containment_test_crosschecks"] = chk
@@ -1877,25 +1912,25 @@ def replay(ctx, payload):
     cases, aux = [], []
     args = payload.get("args") or {}
     if isinstance(args, dict) and "spec" in args:
-        cases.append((args["spec"], args["dirs"], args.get("sweep_seed", 0)))
+        cases.append((args["spec"], args["dirs"], args.get("sweep_seed", 0), args.get("moved")))
     for o in payload.get("others", []) or []:
         a = o.get("args") or {}
         if "spec" in a:
-            cases.append((a["spec"], a["dirs"], a.get("sweep_seed", 0)))
+            cases.append((a["spec"], a["dirs"], a.get("sweep_seed", 0), a.get("moved")))
     if not cases:
         for b in payload.get("broken", []) or []:
             si = b.get("seed_input")
             if isinstance(si, dict) and "spec" in si:
-                cases.append((si["spec"], si["dirs"], 0))
+                cases.append((si["spec"], si["dirs"], 0, None))
             elif isinstance(si, dict) and "fn" in si:
                 aux.append(si)
     if not cases and not aux:
         print("replay file names no input:", payload.get("broken"))
         return False
     ok = True
-    for spec, dirs, seed in cases:
+    for spec, dirs, seed, moved in cases:
         try:
-            viol = oracle_job(spec, [[float(x) for x in d] for d in dirs], 400, seed)
+            viol = oracle_job(spec, [[float(x) for x in d] for d in dirs], 400, seed, moved=moved)
         except Exception as e:  # noqa
             print("FAIL cannot evaluate %s: %r" % (spec.get("kind"), e))
             ok = False
